@@ -452,7 +452,10 @@ def keeper_insert(r, F):
     RUN = "foyer_storage::engine::block::flusher::Runner"
     recv = F.method(RUN, "recv")
     bp = recv.calls_to(r"buffer::Buffer::push$")
-    pushes = [b for b in recv.calls_to(r"Vec::<T, A>::push$") if backslice(recv, b.term.args[0], "prov").has_field("piece_refs", RUN)]
+    # the runner's collection of PieceRefs is found by type (a Vec<PieceRef<..>> field of Runner), not by its name
+    def _is_refs(fn_, op):
+        return op.place is not None and "keeper::PieceRef<" in (fn_.local_ty(op.place.local) or "")
+    pushes = [b for b in recv.calls_to(r"Vec::<T, A>::push$") if _is_refs(recv, b.term.args[1]) and any(of == RUN for of, n in backslice(recv, b.term.args[0], "prov").fields)]
     ok3 = len(bp) == 1 and len(pushes) == 1
     if ok3:
         ok3 = False
@@ -470,7 +473,7 @@ def keeper_insert(r, F):
     g = run[0]
     c = g.calls_to(r"Runner::<K, V, P>::submit_io_task$")[0]
     prs = [a for a in c.term.args if a.place is not None and "keeper::PieceRef<" in (g.local_ty(a.place.local) or "")]
-    ok4 = len(prs) == 1 and any(t.callee and t.callee.endswith("mem::take") and backslice(g, t.args[0], "prov").has_field("piece_refs", RUN) for bb, t in backslice(g, prs[0], "prov").calls)
+    ok4 = len(prs) == 1 and any(t.callee and t.callee.endswith("mem::take") and any(of == RUN for of, n in backslice(g, t.args[0], "prov").fields) for bb, t in backslice(g, prs[0], "prov").calls)
     r.require(ok4, g, "the batch's io task receives the collected PieceRefs", "submit_io_task(.., mem::take(&mut self.piece_refs), ..)", "Runner::run does not hand the collected PieceRefs to the batch's io task", ln=c.term.ln)
 
 
